@@ -1283,6 +1283,8 @@ def b_set(eng, x=None):
         return Box(None, kind='set')
     if isinstance(x, (SV, Box)) and x.ty in (TStr, TCStr):
         return CharSet(SV(x.ty, to_z3(x)))
+    if isinstance(x, (SV, Box)) and isinstance(x.ty, TSet):
+        return Box(x.ty, to_z3(x))                          # set(a set): a copy, no enumeration needed
     it = make_iter(eng, x)
     if it.concrete is not None:
         return new_set(eng, it.concrete)
